@@ -225,6 +225,11 @@ def do_op(k, name, a, b, text):
     elif name == "char_ret_null":
         v = simlib.charRetNull(a)
         res(k, "NONE" if v is None else v)
+    elif name == "item_combine":
+        res(k, h[a].combine(h[b]))
+    elif name == "vec_dot":
+        res(k, simlib.vecDot(prepared(("vd", a), lambda: [i for i in range(1, a + 1)]),
+                             prepared(("vd2", b), lambda: [2 * i for i in range(1, b + 1)])))
     elif name == "str_ptr_out":
         res(k, simlib.strPtrOut(b))
     elif name == "arr_fill_out":
